@@ -685,6 +685,8 @@ pub fn msg_strategy() -> BoxedStrategy<BytesR> {
         6 => (0usize..MSG_EDGE_LENGTHS.len(), any::<u64>()).prop_map(|(i, s)| BytesR::Seeded(MSG_EDGE_LENGTHS[i], s)),
         4 => (0u32..600, any::<u64>()).prop_map(|(l, s)| BytesR::Seeded(l, s)),
         1 => (600u32..20000, any::<u64>()).prop_map(|(l, s)| BytesR::Seeded(l, s)),
+        // messages around and beyond 2^16 bytes (no length field of the RFC covers the message itself)
+        1 => (prop_oneof![Just(65535u32), Just(65536u32), Just(65537u32), Just(131073u32), 66000u32..200000], any::<u64>()).prop_map(|(l, s)| BytesR::Seeded(l, s)),
         3 => proptest::collection::vec(any::<u8>(), 0..48).prop_map(BytesR::Lit),
         1 => "[ -~]{0,40}".prop_map(BytesR::Ascii),
     ]
